@@ -234,9 +234,13 @@ class H2Server(TimerMixin, Peer):
         self.ndata = 0
         self.owed_stream = {}
         self.owed_conn = 0
-        self.events = [dict(e) for e in self.hcfg.get("events", ())]
+        import copy as _copy
+
+        self.events = _copy.deepcopy(list(self.hcfg.get("events", ())))
         self.goaway_sent = False
         self.goaway_last = 0
+        self.max_processed = 0
+        self.cur_sid = 0
         self.refused = set()
         self.close_when_drained = False
 
@@ -322,6 +326,8 @@ class H2Server(TimerMixin, Peer):
                     last = hi + 2
                 else:
                     last = int(mode)
+                # a server never disowns a request it has already processed
+                last = max(last, self.max_processed)
                 self.goaway_sent = True
                 self.goaway_last = last
                 # graceful shutdown: the GOAWAY frame is written by hand so that h2's
@@ -334,6 +340,7 @@ class H2Server(TimerMixin, Peer):
                 f.error_code = ev.get("code", 0)
                 if not self.closed:
                     self.wire.push(now + self.hcfg.get("lat", 0.0005), f.serialize())
+                    self.goaway_offset = self.wire.npushed
                 w.log("h2_srv_goaway", self.wire.id, last, tuple(sids))
                 w.probes["h2_goaway"] += 1
                 # refused streams are dropped by the server
@@ -400,8 +407,10 @@ class H2Server(TimerMixin, Peer):
                 hd = dict(ev.headers)
                 tok = hd.get(b"x-token")
                 self.tokens[ev.stream_id] = tok
-                if ev.stream_ended is not None:
-                    pass
+                # plan events counted in request heads fire before the request is
+                # processed, so that a GOAWAY can still refuse it
+                self.cur_sid = ev.stream_id
+                self._check_counted_events(now)
             elif isinstance(ev, h2.events.DataReceived):
                 n = ev.flow_controlled_length
                 self.ndata += n
@@ -413,6 +422,7 @@ class H2Server(TimerMixin, Peer):
                     self.ledger.server_ended(ev.stream_id)
                 else:
                     w.processed[tok] = w.processed.get(tok, 0) + 1
+                    self.max_processed = max(self.max_processed, ev.stream_id)
                     self._respond(now, ev.stream_id)
             elif isinstance(ev, h2.events.WindowUpdated):
                 self._pump(now)
